@@ -286,6 +286,31 @@ func TestC16(t *testing.T) {
 		}
 		dirB("sharded", 8, "ascii", 1000)
 	}
+	// recursive import whose root is a single file, an empty file, a symlink
+	for _, what := range []string{"file-3-chunks", "file-1-chunk", "empty-file", "symlink"} {
+		what := what
+		builds = append(builds, func(c *mon.Case) c16Build {
+			dir, err := os.MkdirTemp("", "verif-c16-")
+			if err != nil {
+				panic(err)
+			}
+			c.Run().T.Cleanup(func() { os.RemoveAll(dir) })
+			root := filepath.Join(dir, "the-root")
+			switch what {
+			case "file-3-chunks":
+				os.WriteFile(root, gen.Content(c.Rand(), "rand", 2*262144+777), 0o644)
+			case "file-1-chunk":
+				os.WriteFile(root, gen.Content(c.Rand(), "rand", 900), 0o644)
+			case "empty-file":
+				os.WriteFile(root, nil, 0o644)
+			default:
+				os.Symlink("some/where", root)
+			}
+			return c16Build{Name: "recursive import of a root that is a " + what, Kind: "recursive-root-" + what, Base: store.New(), Run: func(ls *ipld.LinkSystem) (ipld.Link, uint64, error) {
+				return builder.BuildUnixFSRecursive(root, ls)
+			}}
+		})
+	}
 	// recursive filesystem import
 	for i := 0; i < r.Pick(3, 10); i++ {
 		i := i
